@@ -57,6 +57,7 @@ def run(chk, fx):
     ia, ib = T["asmjit::x86::InstDB::rw_info_index_a_table"]["value"], T["asmjit::x86::InstDB::rw_info_index_b_table"]["value"]
     ra, rb = T["asmjit::x86::InstDB::rw_info_a_table"]["value"], T["asmjit::x86::InstDB::rw_info_b_table"]["value"]
     rm = T["asmjit::x86::InstDB::rw_info_rm_table"]["value"]
+    pextrw_exempt = pextrw_special_case(chk)
     cats = {n: v for n, v in fx["enums"]["asmjit::x86::InstDB::RWInfoRm::Category"]["enumerators"]}
     flags = {n: v for n, v in fx["enums"]["asmjit::x86::InstDB::RWInfoRm::Flags"]["enumerators"]}
     rwc = {n: v for n, v in fx["enums"]["asmjit::x86::InstDB::RWInfo::Category"]["enumerators"]}
@@ -94,8 +95,8 @@ def run(chk, fx):
                     # alternative of every reg/mem operand; forms with a memory-only operand are not asked about
                     if i >= len(ops) or not ops[i].get("reg") or any(not o.get("reg") and (o.get("mem") or o.get("rel")) for o in ops):
                         continue
-                    if info["flags"] & flags.get("kFlagPextrw", 0) and len(ops) == 3 and ops[1].get("reg") == "mm":
-                        continue      # mirrored special case of query_rw_info
+                    if pextrw_exempt and info["flags"] & flags.get("kFlagPextrw", 0) and len(ops) == 3 and ops[1].get("reg") == "mm":
+                        continue      # the special case of query_rw_info, established from its source by pextrw_special_case()
                     sizes = [reg_bits(o) for o in ops if o.get("reg")]
                     if None in sizes or not sizes:
                         continue
@@ -128,3 +129,34 @@ def run(chk, fx):
                        key="rmagree|%s|%s|op%d" % (name, which, i))
     chk.floor(R + ":operands", n, 800)
     chk.extra["rm_agree"] = stats
+
+
+def pextrw_special_case(chk):
+    """True when query_rw_info() clears rm_ops_mask on the path `flags & kFlagPextrw` && operands[1].is_mm_reg(): only then may the
+    agreement rule leave the MMX form of PEXTRW (which has no memory destination) out"""
+    from . import cfg
+    from .must import Must
+    f = chk.facts("asmjit/x86/x86instapi.cpp", funcs=r"asmjit::x86::InstInternal::query_rw_info$")
+    fns = [g for g in cfg.load_functions(f) if g.file.endswith("x86instapi.cpp")]
+    if not fns:
+        return False
+    fn = fns[0]
+
+    def edge(b, si, atom, holds):
+        x = fn.e(atom)
+        if x is None or not holds:
+            return ()
+        if x["k"] == "binop" and x["op"] == "&" and (fn.e(fn.strip(x["rhs"])) or {}).get("cvn") == "kFlagPextrw":
+            return [("pextrw",)]
+        if x["k"] == "mcall" and x.get("cn") == "is_mm_reg" and "operands[1]" in fn.text(x.get("obj") or 0):
+            return [("mm1",)]
+        return ()
+    m = Must(fn, None, edge)
+    for i, x in fn.ex.items():
+        if x["k"] == "binop" and x["op"] == "=":
+            l, r = fn.e(fn.strip(x["lhs"])), fn.e(fn.strip(x["rhs"]))
+            if l is not None and l.get("name") == "rm_ops_mask" and r is not None and r.get("cv") == 0:
+                st = m.before(i) or frozenset()
+                if ("pextrw",) in st and ("mm1",) in st:
+                    return True
+    return False
